@@ -73,7 +73,11 @@ func runC19(c *c19Case) *c19Obs {
 		cfg.EncryptOpts = []lime.SessionEncryption{lime.SessionEncryptionTLS}
 	}
 	cfg.ChannelBufferSize = c.ChanBuf
+	var refusing int32 // while set the server answers every handshake with a failed session (credentials revoked, say)
 	cfg.Authenticate = func(context.Context, lime.Identity, lime.Authentication) (*lime.AuthenticationResult, error) {
+		if atomic.LoadInt32(&refusing) != 0 {
+			return lime.UnknownAuthenticationResult(), nil
+		}
 		return lime.MemberAuthenticationResult(), nil
 	}
 	cfg.Register = func(_ context.Context, n lime.Node, _ *lime.ServerChannel) (lime.Node, error) { return n, nil }
@@ -273,6 +277,16 @@ func runC19(c *c19Case) *c19Obs {
 			} else {
 				_ = sc.Close()
 			}
+		case "refuse":
+			// the session is dropped and for the next three seconds the server refuses every new handshake: the client has to
+			// keep trying at a civil pace and get through once the server accepts again
+			atomic.StoreInt32(&refusing, 1)
+			time.AfterFunc(3*time.Second, func() { atomic.StoreInt32(&refusing, 0) })
+			if conn != nil {
+				_ = conn.Server.Close()
+			} else {
+				_ = sc.Close()
+			}
 		case "garbage":
 			if conn != nil {
 				_, _ = conn.Server.Write([]byte("}}} not json at all {{{\n"))
@@ -450,7 +464,7 @@ func judgeC19(c *c19Case, obs *c19Obs, o *Outcome) {
 	}
 }
 
-var c19Faults = []string{"server-finish", "server-fail", "cut", "eof", "half-close", "garbage", "non-envelope", "oversized", "regress-session"}
+var c19Faults = []string{"server-finish", "server-fail", "cut", "eof", "half-close", "garbage", "non-envelope", "oversized", "regress-session", "refuse"}
 
 func c19Watchdog(rec *Recorder, stop chan struct{}) {
 	// real time, outside any bubble: a spinning library goroutine freezes the bubble's fake clock
@@ -524,7 +538,7 @@ func TestC19Enum(t *testing.T) {
 	idx := 0
 	for _, tr := range []string{"fconn", "fconn-tls", "inproc"} {
 		for _, kind := range c19Faults {
-			if tr == "inproc" && kind != "server-finish" && kind != "server-fail" && kind != "eof" {
+			if tr == "inproc" && kind != "server-finish" && kind != "server-fail" && kind != "eof" && kind != "refuse" {
 				continue // byte-level faults need a byte stream
 			}
 			for _, moment := range []string{"idle", "during-send", "during-inbound", "backlog"} {
@@ -611,7 +625,7 @@ func TestC19(t *testing.T) {
 		for i := 0; i < n; i++ {
 			kinds := c19Faults
 			if c.Transport == "inproc" {
-				kinds = []string{"server-finish", "server-fail", "eof"}
+				kinds = []string{"server-finish", "server-fail", "eof", "refuse"}
 			}
 			var usable []string
 			for _, k := range kinds {
